@@ -22,6 +22,7 @@ const (
 	kRSA  = "rsa"  // crypto.EncryptPublicKey / DecryptPrivateKey
 	kCron = "cron" // cron.ParseStandard / own Parser, Next, cron.PrintfLogger
 	kLog  = "log"  // logger.NewLogger by distinct names, own output buffers, same-name look-ups
+	kOwn  = "own"  // a caller that keeps and SCRIBBLES OVER what a package function returned to it (lists of algorithm names, marshalled bytes, a parsed schedule); a fresh call must still return what the first call of the process returned
 	kAead = "aead" // EXTRA class (object-level, not package-level shared state): Seal/Open on ONE aescbcaead AEAD shared by all aead workers of the cast with the same variant
 )
 
@@ -45,6 +46,10 @@ type wspec struct {
 	Tamper  string // none | mac | unwrap-err | unwrap-wrong | segment | scheme | header-cut | manifest | empty
 	Cons    int    // read size of the consumers (0: io.ReadAll)
 	Src     int    // read size of the sources (0: bytes.Reader, everything at once)
+	// enc: a pipeline that FAILS the way the API documents, at the caller's own doing (see encFails); the failure is the worker's result
+	Fail    string // none | one of encFails (sym: one of symFails; sig, rsa: alg-unknown)
+	FailArg string // alg-unknown / cipher-unknown: the name given
+	FailAt  int    // src-err / doc-src-err / doc-cut: where the source ends, in permille of its length
 
 	// pool
 	Fill    int
@@ -56,6 +61,10 @@ type wspec struct {
 	Grow    int  // bytes beyond the current capacity asked for by each growing Resize
 	Second  int  // > 0: a second Get while the others are still held, filled with that many bytes
 	PutOrig bool // the slices that were outgrown are put back at the end (the `defer pool.Put(buf)` idiom), each exactly once; false: left to the garbage collector
+
+	// own
+	Target   string // which call (see ownTargets)
+	Scribble string // what the worker does to its own result: sort | reverse | overwrite | filter | shift | clear
 
 	// aead
 	Variant int // 0: AES128-CBC-HMAC-SHA256, 1: AES192/SHA384, 2: AES256/SHA384, 3: AES256/SHA512
@@ -83,12 +92,21 @@ type wspec struct {
 	Shared int // look-ups of the cast-wide shared logger name per repetition
 }
 
+// failing: the enc worker's pipeline fails at its caller's own doing (see encFails)
+func (w wspec) failing() bool { return w.Fail != "" && w.Fail != "none" }
+
 func (w wspec) String() string {
 	head := fmt.Sprintf("%s{reps=%d seed=%d y=%d us=%d", w.Kind, w.Reps, w.Seed, w.Yield, w.SleepUs)
 	switch w.Kind {
 	case kEnc:
-		return head + fmt.Sprintf(" len=%d cph=%d kn=%d pad=%d alg=%s wrap=%s mode=%s tamper=%s cons=%d src=%d}",
-			w.Len, w.Cipher, w.KeyName, w.WrapPad, w.Alg, w.Wrap, w.Mode, w.Tamper, w.Cons, w.Src)
+		fail := ""
+		if w.failing() {
+			fail = fmt.Sprintf(" fail=%s arg=%q at=%d", w.Fail, w.FailArg, w.FailAt)
+		}
+		return head + fmt.Sprintf(" len=%d cph=%d kn=%d pad=%d alg=%s wrap=%s mode=%s tamper=%s cons=%d src=%d%s}",
+			w.Len, w.Cipher, w.KeyName, w.WrapPad, w.Alg, w.Wrap, w.Mode, w.Tamper, w.Cons, w.Src, fail)
+	case kOwn:
+		return head + fmt.Sprintf(" target=%q scribble=%s}", w.Target, w.Scribble)
 	case kPool:
 		if w.Style == "keep" {
 			return head + fmt.Sprintf(" fill=%d cap=%d style=%s own=%v grows=%d grow=%d second=%d putorig=%v}", w.Fill, w.Cap, w.Style, w.OwnPool, w.Grows, w.Grow, w.Second, w.PutOrig)
@@ -97,7 +115,11 @@ func (w wspec) String() string {
 	case kAead:
 		return head + fmt.Sprintf(" variant=%d pt=%d iter=%d aad=%d prefix=%d}", w.Variant, w.PtLen, w.Iter, w.AadLen, w.Prefix)
 	case kSym, kSig, kRSA:
-		return head + fmt.Sprintf(" alg=%s pt=%d key=%d kid=%q}", w.CAlg, w.PtLen, w.Key, w.Kid)
+		fail := ""
+		if w.failing() {
+			fail = " fail=" + w.Fail
+		}
+		return head + fmt.Sprintf(" alg=%s pt=%d key=%d kid=%q%s}", w.CAlg, w.PtLen, w.Key, w.Kid, fail)
 	case kCron:
 		return head + fmt.Sprintf(" parser=%d spec=%q from=%d.%09d steps=%d}", w.Parser, w.Spec, w.From, w.Nanos, w.Steps)
 	case kLog:
@@ -113,6 +135,7 @@ type cast struct {
 	AeadKey    uint64 // the keys of the cast's shared AEADs are expanded from it (the same keys in the solo and in the concurrent phase)
 	Workers    []wspec
 	Cold       bool   // the first concurrent phase runs BEFORE the solo phase: whatever a package computes on first use (a lazily built table, a cache entry for a name nobody asked for before) is first computed while the other workers run
+	FailHeavy  bool   // informational: the cast was drawn with a majority of enc workers whose pipeline fails at its caller's own doing (the kinds are in Workers)
 	CronFamily string // if set, the cron workers of the cast parse this one expression under different zones (informational: the specs are in Workers)
 }
 
@@ -181,6 +204,85 @@ func genEnc(rt *rapid.T, w *wspec) {
 	w.Src = rapid.SampledFrom([]int{0, 0, 100, 512, 4096, 65536}).Draw(rt, "src")
 }
 
+// encFails: the ways in which an Encrypt -> Decrypt pipeline fails at its caller's own doing, each one documented by the
+// API (option validation, the 64 KiB bound of the header, errors of the callbacks and of the streams handed in). A
+// failing pipeline leaves Encrypt / Decrypt on another path than a succeeding one - with whatever pooled object it holds
+// at that point. The failure text is the worker's result; the workers next to it must not notice.
+var encFails = []string{
+	"keyname-over",    // KeyName of 66000..90000 characters: the header cannot fit in 64 KiB ("header is too long")
+	"keyname-border",  // KeyName within a few hundred characters of the bound: fits or not, the solo run says
+	"deckeyname-over", // ordinary KeyName, DecryptionKeyName of 66000..90000 characters
+	"wfk-over",        // the wrap callback returns a wrapped key of ~50..60 KiB (base64 in the manifest: beyond 64 KiB)
+	"alg-unknown",     // Algorithm is not one of the supported names
+	"cipher-unknown",  // Cipher option is not one of the supported names
+	"keyname-empty",   // required options missing
+	"wrapfn-nil",
+	"unwrapfn-nil",
+	"wrap-err",     // the wrap callback returns an error
+	"wrap-empty",   // the wrap callback returns an empty wrapped key: the document's manifest is invalid
+	"omit-keyname", // OmitKeyName, and Decrypt is not given a key name either (ErrDecryptionKeyMissing)
+	"src-err",      // the plaintext source fails with an error of its own after FailAt permille of the message
+	"doc-src-err",  // the document source fails with an error of its own after FailAt permille of the document
+	"doc-cut",      // the document ends after FailAt permille of its bytes (truncated input)
+}
+
+var encFailsOver = []string{"keyname-over", "keyname-over", "keyname-border", "deckeyname-over", "wfk-over"}
+
+// failIsEncryptSide: the failure is provoked through kit's Encrypt (so the worker cannot start from a reference document)
+func failIsEncryptSide(f string) bool {
+	switch f {
+	case "doc-src-err", "doc-cut", "unwrapfn-nil", "none", "":
+		return false
+	}
+	return true
+}
+
+// genEncFail draws the failure kind of an enc worker: none for most workers; in a failure-heavy cast for a minority.
+func genEncFail(rt *rapid.T, w *wspec, heavy bool) {
+	w.Fail = "none"
+	p := rapid.IntRange(0, 19).Draw(rt, "failClass")
+	switch {
+	case heavy && p < 6, !heavy && p < 1:
+		w.Fail = rapid.SampledFrom(encFailsOver).Draw(rt, "failOver")
+	case heavy && p < 13, !heavy && p < 3:
+		w.Fail = rapid.SampledFrom(encFails).Draw(rt, "fail")
+	}
+	if w.Fail == "none" {
+		return
+	}
+	w.Tamper = "none"
+	if failIsEncryptSide(w.Fail) {
+		w.Mode = "rt"
+	}
+	w.FailAt = rapid.SampledFrom([]int{0, 1, 10, 50, 100, 300, 500, 800, 950, 999, 1000}).Draw(rt, "failAt")
+	switch w.Fail {
+	case "keyname-over", "deckeyname-over":
+		w.KeyName = rapid.IntRange(66000, 90000).Draw(rt, "keyNameOver")
+	case "keyname-border":
+		w.KeyName = 65536 - rapid.IntRange(0, 450).Draw(rt, "keyNameBorder")
+		w.WrapPad = 0
+	case "wfk-over":
+		w.WrapPad = rapid.IntRange(49200, 60000).Draw(rt, "wrapPadOver")
+	case "alg-unknown":
+		w.FailArg = rapid.SampledFrom([]string{"A512KW", "a256kw", "RSA-OAEP", "A128KW", "aes", "A256KW ", "none"}).Draw(rt, "algUnknown")
+	case "cipher-unknown":
+		w.FailArg = rapid.SampledFrom([]string{"", "AES-CBC", "aes-gcm", "CHACHA20", "XCHACHA20-POLY1305"}).Draw(rt, "cipherUnknown")
+	}
+	if w.Len > 20000 && w.Fail != "src-err" && w.Fail != "doc-src-err" && w.Fail != "doc-cut" {
+		w.Len %= 20000 // the message of a pipeline that fails before it reads any of it need not be large
+	}
+}
+
+var ownScribbles = []string{"sort", "reverse", "overwrite", "filter", "shift", "clear"}
+
+func genOwn(rt *rapid.T, w *wspec) {
+	w.Target = ownTargetNames[rapid.IntRange(0, len(ownTargetNames)-1).Draw(rt, "ownTarget")]
+	if rapid.IntRange(0, 2).Draw(rt, "ownList") != 0 { // the lists of names are what callers post-process most
+		w.Target = ownTargetNames[rapid.IntRange(0, ownListTargets-1).Draw(rt, "ownListTarget")]
+	}
+	w.Scribble = rapid.SampledFrom(ownScribbles).Draw(rt, "scribble")
+}
+
 func genPool(rt *rapid.T, w *wspec) {
 	w.Fill = rapid.IntRange(1, 4096).Draw(rt, "fill")
 	w.Cap = rapid.SampledFrom([]int{0, 16, 64, 1024, 8192}).Draw(rt, "cap")
@@ -207,6 +309,10 @@ func genAead(rt *rapid.T, w *wspec) {
 	w.Prefix = rapid.SampledFrom([]int{0, 0, 5, 32}).Draw(rt, "prefix")
 }
 
+// symFails: alg-unknown (a name the package does not know), nonce-size (one byte too many), key-size (eight bytes too
+// many), tag (a damaged tag - or, for the algorithms without one, a damaged last ciphertext byte - given to Decrypt)
+var symFails = []string{"alg-unknown", "nonce-size", "key-size", "tag"}
+
 var rsaAlgs = []string{"RSA1_5", "RSA-OAEP", "RSA-OAEP-256", "RSA-OAEP-384", "RSA-OAEP-512"}
 
 func genCrypto(rt *rapid.T, w *wspec) {
@@ -220,6 +326,14 @@ func genCrypto(rt *rapid.T, w *wspec) {
 	case kRSA:
 		w.CAlg = rapid.SampledFrom(rsaAlgs).Draw(rt, "rsaAlg")
 		w.PtLen = rapid.IntRange(0, 100).Draw(rt, "ptLen")
+	}
+	// a call that fails at its caller's own doing (the error is the worker's result), next to the calls that must succeed
+	w.Fail = "none"
+	if rapid.IntRange(0, 7).Draw(rt, "cryptoFail") == 0 {
+		w.Fail = "alg-unknown"
+		if w.Kind == kSym {
+			w.Fail = rapid.SampledFrom(symFails).Draw(rt, "symFail")
+		}
 	}
 	w.Key = rapid.IntRange(0, 5).Draw(rt, "key")
 	w.Kid = rapid.SampledFrom([]string{"", "", "k", "mykey", "mykey"}).Draw(rt, "kid")
@@ -348,11 +462,13 @@ func genWorker(rt *rapid.T, kind string) wspec {
 		genLog(rt, &w)
 	case kAead:
 		genAead(rt, &w)
+	case kOwn:
+		genOwn(rt, &w)
 	}
 	return w
 }
 
-// genCast draws the cast. Four casting styles: mixed (every kind, enc weighted
+// genCast draws the cast. Five casting styles: failure-heavy (see encFails), mixed (every kind, enc weighted
 // highest), enc-heavy (enc plus a few others: the most BufPool traffic),
 // small-state (pool, log, cron, crypto only: the most registry / shared pool traffic)
 // and shared-object (pool and aead workers mostly: one pool, at most two shared AEADs).
@@ -365,16 +481,20 @@ func genCast(rt *rapid.T, procs []int) cast {
 	n := rapid.IntRange(8, 32).Draw(rt, "workers")
 	var kinds []string
 	aeadVariants := 1 // how many different AEAD objects the aead workers of the cast are spread over (few, so that objects really are shared)
-	switch rapid.IntRange(0, 10).Draw(rt, "style") {
+	switch rapid.IntRange(0, 12).Draw(rt, "style") {
 	case 0, 1, 2:
-		kinds = []string{kEnc, kEnc, kEnc, kEnc, kEnc, kEnc, kEnc, kPool, kSym, kCron, kLog}
+		kinds = []string{kEnc, kEnc, kEnc, kEnc, kEnc, kEnc, kEnc, kPool, kSym, kCron, kLog, kOwn}
 	case 3:
-		kinds = []string{kPool, kPool, kPool, kLog, kLog, kLog, kCron, kCron, kSym, kSig, kRSA, kAead, kAead}
+		kinds = []string{kPool, kPool, kPool, kLog, kLog, kLog, kCron, kCron, kSym, kSig, kRSA, kAead, kAead, kOwn, kOwn}
 	case 4:
-		kinds = []string{kPool, kPool, kPool, kAead, kAead, kAead, kAead, kSym, kEnc, kLog}
+		kinds = []string{kPool, kPool, kPool, kAead, kAead, kAead, kAead, kSym, kEnc, kLog, kOwn}
 		aeadVariants = 2
+	case 11, 12:
+		// failure-heavy: mostly enc pipelines, the majority of which fails at its caller's own doing, next to pipelines that must succeed
+		kinds = []string{kEnc, kEnc, kEnc, kEnc, kEnc, kEnc, kEnc, kEnc, kPool, kSym, kLog, kOwn}
+		c.FailHeavy = true
 	default:
-		kinds = []string{kEnc, kEnc, kEnc, kEnc, kEnc, kEnc, kPool, kPool, kPool, kSym, kSym, kSig, kRSA, kCron, kCron, kLog, kLog, kLog, kAead, kAead}
+		kinds = []string{kEnc, kEnc, kEnc, kEnc, kEnc, kEnc, kPool, kPool, kPool, kSym, kSym, kSig, kRSA, kCron, kCron, kLog, kLog, kLog, kAead, kAead, kOwn, kOwn}
 	}
 	aeadBase := rapid.IntRange(0, 3).Draw(rt, "aeadBase")
 	for i := 0; i < n; i++ {
@@ -382,6 +502,9 @@ func genCast(rt *rapid.T, procs []int) cast {
 		w := genWorker(rt, k)
 		if k == kAead {
 			w.Variant = (aeadBase + w.Variant%aeadVariants) % 4
+		}
+		if k == kEnc {
+			genEncFail(rt, &w, c.FailHeavy)
 		}
 		if k == kEnc && w.Len > 60000 && w.Reps > 2 {
 			w.Reps = 2 // bulk is expensive under the race detector; the repetitions go to the small messages
